@@ -685,7 +685,7 @@ impl Subscription {
                 IterDirection::Forward,
             )
             .await?;
-        while let Some(commits) = iter.next_batch(DEFAULT_BATCH_SIZE).await? {
+        'iter: while let Some(commits) = iter.next_batch(DEFAULT_BATCH_SIZE).await? {
             #[cfg(sierradb_verif)]
             crate::verif::point("sub.history.batch", &[]);
             for commit in commits {
@@ -694,7 +694,9 @@ impl Subscription {
                 };
 
                 if !watermark.can_read(first_partition_sequence) {
-                    break;
+                    // Stop reading altogether: a later batch may become readable when the
+                    // watermark moves, and delivering it would skip the events in between
+                    break 'iter;
                 }
 
                 for event in commit {
